@@ -9,7 +9,7 @@ import heapq
 import concurrent.futures
 from asyncio import events
 
-from .env import HarnessError
+from .env import HarnessError, watchdog_check
 
 _CURRENT = []
 
@@ -196,6 +196,7 @@ class VLoop(asyncio.BaseEventLoop):
         n = 0
         t_end = None if horizon is None else self._vtime + horizon  # absolute: periodic timers cannot extend it
         while True:
+            watchdog_check()
             if until is not None and until():
                 return True
             if self._ready:
